@@ -337,16 +337,31 @@ theorem setField_inv (s : State) (f : Nat) (name : String) (isList : Bool) (P : 
   rw [C.astF_keep _ hro hrn]
   exact hrootF
 
-/-- **Well-formed state**: the link invariant, pairwise distinct ASTs in the tree, and the FST objects of the tree
-exist (`< next`). This is what every operation below assumes and re-establishes. -/
+/-- **Well-formed state**: the link invariant, pairwise distinct ASTs in the tree, the FST objects of the tree exist
+(`< next`), and the root AST occupies no slot. This is what every operation below assumes and re-establishes. -/
 def WF (s : State) : Prop :=
-  LinkInv s ∧ (ids s.root).Nodup ∧ ∀ x ∈ ids s.root, ∀ g, s.σ.astF x = some g → g < s.σ.next
+  LinkInv s ∧ (ids s.root).Nodup ∧ (∀ x ∈ ids s.root, ∀ g, s.σ.astF x = some g → g < s.σ.next) ∧ s.root.fld = none
+
+private theorem replaceId_fld (T : Ast) (i : Nat) (new : Ast) (h : T.id ≠ i) : (replaceId i new T).fld = T.fld := by
+  obtain ⟨j, k, f, ks⟩ := T
+  simp only [Ast.id] at h
+  simp only [replaceId, if_neg h, Ast.fld]
+
+private theorem setKids_fld (T : Ast) (i : Nat) (name : String) (new : List Ast) :
+    (setKids i name new T).fld = T.fld := by
+  obtain ⟨j, k, f, ks⟩ := T
+  simp only [setKids]
+  split <;> rfl
+
+private theorem findId_self (T : Ast) : findId T.id T = some T := by
+  obtain ⟨j, k, f, ks⟩ := T
+  simp [findId, Ast.id]
 
 /-- **setAst_wf**: `_set_ast` (non-root position, fresh new tree) keeps the state well formed. -/
 theorem setAst_wf (s : State) (f : Nat) (old new : Ast) (h : WF s)
     (hold : findId old.id s.root = some old) (hf : s.σ.astF old.id = some f) (hne : s.root.id ≠ old.id)
     (hnnd : (ids new).Nodup) (hfresh : ∀ x ∈ ids new, s.σ.astF x = none) : WF (setAst s f new) := by
-  obtain ⟨hinv, hnd, hbd⟩ := h
+  obtain ⟨hinv, hnd, hbd, hfl⟩ := h
   obtain ⟨hi, _, hrt, hσ⟩ := setAst_inv s f old new hinv hnd hbd hold hf hne hnnd hfresh
   have hl : linkedB s.σ none s.root = true := by
     simp only [LinkInv, linkInvB, Bool.and_eq_true] at hinv; exact hinv.1
@@ -357,7 +372,7 @@ theorem setAst_wf (s : State) (f : Nat) (old new : Ast) (h : WF s)
     fun x hx g hg => ⟨linked_back s.σ s.root none hl x hx g hg, hbd x hx g hg⟩
   have C := swapσ_ctx s.σ (ids s.root) old new f hback holdR hf hnnd hfresh
   obtain ⟨hle, hnew, hdead⟩ := swapσ_bounds s.σ old new f hF hnnd hfresh
-  refine ⟨hi, ?_, ?_⟩
+  refine ⟨hi, ?_, ?_, by rw [hrt, replaceId_fld _ _ _ hne]; exact hfl⟩
   · rw [hrt]
     exact replaceId_nodup s.root old.id _ hnd (by rw [ids_setFld]; exact hnnd) (by rw [ids_setFld]; exact hdn)
   · intro x hx g hg
@@ -381,7 +396,7 @@ theorem setField_wf (s : State) (f : Nat) (name : String) (isList : Bool) (P : A
     (hP : findId P.id s.root = some P) (hf : s.σ.astF P.id = some f)
     (hnnd : (idsList new0).Nodup) (hfresh : ∀ x ∈ idsList new0, s.σ.astF x = none) :
     WF (setField s f name isList new0) := by
-  obtain ⟨hinv, hnd, hbd⟩ := h
+  obtain ⟨hinv, hnd, hbd, hfl⟩ := h
   obtain ⟨hi, _, hrt, hσ⟩ := setField_inv s f name isList P new0 hinv hnd hbd hP hf hnnd hfresh
   have hl : linkedB s.σ none s.root = true := by
     simp only [LinkInv, linkInvB, Bool.and_eq_true] at hinv; exact hinv.1
@@ -399,7 +414,7 @@ theorem setField_wf (s : State) (f : Nat) (name : String) (isList : Bool) (P : A
   have hf' : ∀ x ∈ idsList (relabel name isList 0 new0), s.σ.astF x = none := by rw [hids]; exact hfresh
   have C := fieldσ_ctx s.σ (ids s.root) (fieldOf name P) (relabel name isList 0 new0) f hF hback hbodyR hn' hf'
   obtain ⟨hle, hnew, hdead⟩ := fieldσ_bounds s.σ (fieldOf name P) (relabel name isList 0 new0) f hF hn' hf'
-  refine ⟨hi, ?_, ?_⟩
+  refine ⟨hi, ?_, ?_, by rw [hrt, setKids_fld]; exact hfl⟩
   · rw [hrt]
     exact setKids_nodup s.root P.id name _ hnd hn' hdn
   · intro x hx g hg
@@ -440,13 +455,43 @@ theorem touch_preserves_links (s : State) (g : Nat) : LinkInv { s with σ := tou
   simp only [LinkInv, linkInvB, linkedB_touch]
   simp only [touch]
 
-/-- an operation the theorems cover, in state `s`: `_set_ast` with the default flags on the FST of a non-root node of
-the tree, `_set_field` with the default flags on the FST of any node of the tree, both with fresh pairwise distinct
-new ASTs (none has an FST in `s`); `_touch` of any FST. (`_set_ast` at the root: `setAst_inv_partial`; `_touchall`
-and the non-default flags are outside this predicate: correspondence only.) -/
+/-- **setAst_root_wf**: `_set_ast` on the root FST (fresh new tree) keeps the state well formed; the new root AST is
+`new` with no slot. -/
+theorem setAst_root_wf (s : State) (new : Ast) (h : WF s)
+    (hnnd : (ids new).Nodup) (hfresh : ∀ x ∈ ids new, s.σ.astF x = none) : WF (setAst s s.rootF new) := by
+  obtain ⟨hinv, hnd, hbd, hfl⟩ := h
+  have hinv' := hinv
+  simp only [LinkInv, linkInvB, Bool.and_eq_true, beq_iff_eq] at hinv'
+  obtain ⟨hl, hrootF⟩ := hinv'
+  have hback : ∀ x ∈ ids s.root, ∀ g, s.σ.astF x = some g → (s.σ.fst g).a = some x ∧ g < s.σ.next :=
+    fun x hx g hg => ⟨linked_back s.σ s.root none hl x hx g hg, hbd x hx g hg⟩
+  have hF : s.rootF < s.σ.next := hbd _ (id_mem_ids s.root) _ hrootF
+  have ho := linkedB_root s.σ none s.root hl s.rootF hrootF
+  have hq : (s.σ.fst s.rootF).pfield = none := ho.2.2.1.trans hfl
+  have C := swapσ_ctx s.σ (ids s.root) s.root new s.rootF hback (fun _ h => h) hrootF hnnd hfresh
+  obtain ⟨hle, hnew, _⟩ := swapσ_bounds s.σ s.root new s.rootF hF hnnd hfresh
+  have hi := (setAst_inv_partial s new hF ho.1 ⟨ho.2.1, hq⟩ hnnd hfresh).1
+  have hn1 : (unmake s.σ s.root).astF new.id = none := unmake_keeps_none _ _ _ (hfresh _ (id_mem_ids new))
+  have hP : ((swapσ s.σ s.root s.rootF new).fst s.rootF).parent = none := C.newFp.trans ho.2.1
+  have hQ : ((swapσ s.σ s.root s.rootF new).fst s.rootF).pfield = none := C.newFq.trans hq
+  have hres : setAst s s.rootF new =
+      { s with root := new.setFld none, σ := touch (swapσ s.σ s.root s.rootF new) s.rootF } := by
+    simp only [setAst, ho.1, Option.bind_some, findId_self, hn1, if_true, Bool.false_eq_true, if_false]
+    simp only [swapσ] at hP hQ
+    simp only [swapσ, hP, hQ]
+  rw [hres] at hi ⊢
+  refine ⟨hi, by rw [ids_setFld]; exact hnnd, ?_, by cases new; rfl⟩
+  intro x hx g hg
+  rw [ids_setFld] at hx
+  exact hnew x hx g hg
+
+/-- an operation the theorems cover, in state `s`: `_set_ast` with the default flags on the root FST or on the FST of a
+non-root node of the tree, `_set_field` with the default flags on the FST of any node of the tree, both with fresh pairwise distinct
+new ASTs (none has an FST in `s`); `_touch` of any FST. (`_touchall` and the non-default flags are outside this
+predicate: correspondence only.) -/
 def Admissible (s : State) : Op → Prop
-  | .setAst f new v u => v = false ∧ u = true ∧ ∃ old, findId old.id s.root = some old ∧ s.σ.astF old.id = some f ∧
-      s.root.id ≠ old.id ∧ (ids new).Nodup ∧ ∀ x ∈ ids new, s.σ.astF x = none
+  | .setAst f new v u => v = false ∧ u = true ∧ (ids new).Nodup ∧ (∀ x ∈ ids new, s.σ.astF x = none) ∧
+      (f = s.rootF ∨ ∃ old, findId old.id s.root = some old ∧ s.σ.astF old.id = some f ∧ s.root.id ≠ old.id)
   | .setField f _ _ new v u => v = false ∧ u = true ∧ ∃ P, findId P.id s.root = some P ∧ s.σ.astF P.id = some f ∧
       (idsList new).Nodup ∧ ∀ x ∈ idsList new, s.σ.astF x = none
   | .touch _ => True
@@ -461,16 +506,20 @@ def AdmissibleRun : State → List Op → Prop
 theorem step_wf (s : State) (o : Op) (h : WF s) (ha : Admissible s o) : WF (step s o) := by
   cases o with
   | setAst f new v u =>
-    obtain ⟨hv, hu, old, h1, h2, h3, h4, h5⟩ := ha
+    obtain ⟨hv, hu, h4, h5, hpos⟩ := ha
     subst hv; subst hu
-    exact setAst_wf s f old new h h1 h2 h3 h4 h5
+    cases hpos with
+    | inl e => subst e; exact setAst_root_wf s new h h4 h5
+    | inr hx =>
+      obtain ⟨old, h1, h2, h3⟩ := hx
+      exact setAst_wf s f old new h h1 h2 h3 h4 h5
   | setField f name l new v u =>
     obtain ⟨hv, hu, P, h1, h2, h3, h4⟩ := ha
     subst hv; subst hu
     exact setField_wf s f name l P new h h1 h2 h3 h4
   | touch f =>
-    obtain ⟨hinv, hnd, hbd⟩ := h
-    exact ⟨(touch_preserves_links s f).mpr hinv, hnd, hbd⟩
+    obtain ⟨hinv, hnd, hbd, hfl⟩ := h
+    exact ⟨(touch_preserves_links s f).mpr hinv, hnd, hbd, hfl⟩
   | touchall f p sf c => exact absurd ha id
 
 /-- **run_wf**: the link invariant (with pairwise distinct ASTs and existing FST objects) holds in every state reached
@@ -484,15 +533,16 @@ theorem run_wf (ops : List Op) : ∀ s : State, WF s → AdmissibleRun s ops →
 
 /-- `wfB` (evaluated by the driver on real states) decides `WF` -/
 theorem wfB_iff (s : State) : wfB s = true ↔ WF s := by
-  simp only [wfB, WF, LinkInv, boundedB, Bool.and_eq_true, decide_eq_true_eq, List.all_eq_true, and_assoc]
+  simp only [wfB, WF, LinkInv, boundedB, Bool.and_eq_true, decide_eq_true_eq, List.all_eq_true, and_assoc,
+    Option.isNone_iff_eq_none]
   constructor
-  · rintro ⟨a, b, c⟩
-    refine ⟨a, b, fun x hx g hg => ?_⟩
+  · rintro ⟨a, b, c, d⟩
+    refine ⟨a, b, fun x hx g hg => ?_, d⟩
     have := c x hx
     rw [hg] at this
     simpa using this
-  · rintro ⟨a, b, c⟩
-    refine ⟨a, b, fun x hx => ?_⟩
+  · rintro ⟨a, b, c, d⟩
+    refine ⟨a, b, fun x hx => ?_, d⟩
     cases h : s.σ.astF x with
     | none => rfl
     | some g => simpa using c x hx g h
@@ -506,17 +556,21 @@ private theorem freshB_spec (σ : Store) (l : List Nat) (h : freshB σ l = true)
 theorem admissibleB_sound (s : State) (o : Op) (h : admissibleB s o = true) : Admissible s o := by
   cases o with
   | setAst f new v u =>
-    simp only [admissibleB, Bool.and_eq_true, Bool.not_eq_true'] at h
-    obtain ⟨⟨hv, hu⟩, hm⟩ := h
-    cases hfo : ((s.σ.fst f).a).bind (fun i => findId i s.root) with
-    | none => simp [hfo] at hm
-    | some old =>
-      simp only [hfo, Bool.and_eq_true, beq_iff_eq, bne_iff_ne] at hm
-      obtain ⟨i, _, hfi⟩ := Option.bind_eq_some_iff.mp hfo
-      have hid := (findId_some s.root i old hfi).1
-      rw [← hid] at hfi
-      obtain ⟨hn, hfr⟩ := freshB_spec _ _ hm.2
-      exact ⟨hv, hu, old, hfi, hm.1.1, hm.1.2, hn, hfr⟩
+    simp only [admissibleB, Bool.and_eq_true, Bool.not_eq_true', Bool.or_eq_true, beq_iff_eq] at h
+    obtain ⟨⟨⟨hv, hu⟩, hfrb⟩, hm⟩ := h
+    obtain ⟨hn, hfr⟩ := freshB_spec _ _ hfrb
+    refine ⟨hv, hu, hn, hfr, ?_⟩
+    cases hm with
+    | inl e => exact Or.inl e
+    | inr hm =>
+      cases hfo : ((s.σ.fst f).a).bind (fun i => findId i s.root) with
+      | none => simp [hfo] at hm
+      | some old =>
+        simp only [hfo, Bool.and_eq_true, beq_iff_eq, bne_iff_ne] at hm
+        obtain ⟨i, _, hfi⟩ := Option.bind_eq_some_iff.mp hfo
+        have hid := (findId_some s.root i old hfi).1
+        rw [← hid] at hfi
+        exact Or.inr ⟨old, hfi, hm.1, hm.2⟩
   | setField f name l new v u =>
     simp only [admissibleB, Bool.and_eq_true, Bool.not_eq_true'] at h
     obtain ⟨⟨hv, hu⟩, hm⟩ := h
@@ -786,10 +840,14 @@ example : LinkInv s4 ∧ s4.σ.astF 12 = none ∧ s4.σ.astF 11 = some 6 ∧ (s4
     := by unfold LinkInv; decide
 -- `run_wf`: a well-formed start state and an admissible three-step history (replace the List by a Call, replace the
 -- Module body, touch the root)
-example : WF s1 := ⟨by unfold LinkInv; decide, by decide, by decide⟩
+example : WF s1 := ⟨by unfold LinkInv; decide, by decide, by decide, rfl⟩
 example : AdmissibleRun s1 [.setAst 3 newCall false true, .setField 0 "body" true newBody false true, .touch 0] := by
-  refine ⟨⟨rfl, rfl, listSub, rfl, by decide, by decide, by decide, by decide⟩,
+  refine ⟨⟨rfl, rfl, by decide, by decide, Or.inr ⟨listSub, rfl, by decide, by decide⟩⟩,
     ⟨rfl, rfl, s2.root, rfl, by decide, by decide, by decide⟩, trivial, trivial⟩
+-- the executable premises agree on the same history, root-position `_set_ast` included
+example : wfB s1 = true ∧ admissibleB s1 (.setAst 3 newCall false true) = true ∧
+    admissibleB s1 (.setAst 0 (.mk 30 "Module" none [ .mk 31 "Pass" (fld "body" (some 0)) [] ]) false true) = true ∧
+    admissibleB s1 (.setAst 3 listSub false true) = false := by decide
 -- root position of `setAst_inv_partial`
 example : s1.rootF < s1.σ.next ∧ (s1.σ.fst s1.rootF).a = some s1.root.id ∧ (s1.σ.fst s1.rootF).parent = none := by decide
 example : LinkInv (setAst s1 0 (.mk 30 "Module" none [ .mk 31 "Pass" (fld "body" (some 0)) [] ])) := by
